@@ -17,7 +17,15 @@ DIG = z3.BitVecSort(16)
 BV64 = lambda v: z3.BitVecVal(v, 64)
 def IDV(v): return z3.BitVecVal(v, 8)
 
-V = z3.Function('V', ID, ID, z3.BoolSort())               # root id verifies doc id with the role's threshold (C01 predicate)
+# Verification oracle (the C01 predicate): whether root `rid` accepts doc `did` depends on the root only through the key set
+# and threshold it authorises for the doc's role:  V(rid, did) = W(KS(rid, role), Thr(rid, role), did), role = RoleOf(did).
+KS = z3.Function('KS', ID, ID, ID)                         # identity of the key set a root lists for a role
+Thr = z3.Function('Thr', ID, ID, U64)
+RoleOf = z3.Function('RoleOf', ID, ID)
+W = z3.Function('W', ID, U64, ID, z3.BoolSort())
+def V(rid, did):
+    r = RoleOf(did)
+    return W(KS(rid, r), Thr(rid, r), did)
 Ver = z3.Function('Ver', ID, U64)
 Exp = z3.Function('Exp', ID, U64)
 Cons = z3.Function('Cons', ID, z3.BoolSort())             # root.consistent_snapshot
@@ -155,7 +163,8 @@ def m_roles_get(I, st, fr, callee, args, dty, dest, ret_bb):
     d = role.discr
     if not isinstance(d, int): raise Stuck('roles.get with symbolic role type')
     n = m.d['klen'].get(d, 1)
-    elems = [st.alloc(Obj('hex', id=RKey(m.d['rid'], IDV(d), IDV(i)))) for i in range(n)]
+    # a one-element key list is identified with the key-set identity KS(root, role)
+    elems = [st.alloc(Obj('hex', id=(KS(m.d['rid'], IDV(d)) if n == 1 else RKey(m.d['rid'], IDV(d), IDV(i))))) for i in range(n)]
     cell = st.alloc(Adt('RoleKeys', None, {(None, F('RoleKeys', 'keyids')): Obj('vec', elems=elems)}))
     return mk_some(Ref(cell))
 
